@@ -26,6 +26,36 @@ theorem coerce_prim (env : CoerceEnv) (c : JClass) (d d' : Py) (h : coerce env c
     | (split at h <;> cases h <;> first | exact Or.inl rfl | exact Or.inr ⟨rfl, rfl⟩)
     | (split at h <;> split at h <;> cases h <;> first | exact Or.inl rfl | exact Or.inr ⟨rfl, rfl⟩)
 
+/-- the documented table of conversions: `''` to `None`; a boolean word or an integer to `bool`; a string or a float to
+    `int`; a string or an integer to `float`; a number to `str`.  Nothing else - in particular no `bool` where a number
+    is expected - is ever converted. -/
+def inCoerceTable (env : CoerceEnv) : JClass → Py → Bool
+  | .null, .str s => s == ""
+  | .bool, .str s => (assoc? s.toLower env.boolWords).isSome
+  | .bool, .int _ => true
+  | .int, .float _ | .int, .str _ => true
+  | .float, .int _ | .float, .str _ => true
+  | .str, .int _ | .str, .float _ => true
+  | _, _ => false
+
+/-- **C14 (the table).** A datum that `coerce` accepts is returned as it is, or is one of the documented
+    (expected class, datum) conversions. -/
+theorem C14_coerce_table (env : CoerceEnv) (c : JClass) (d d' : Py) (h : coerce env c d = .ok d') :
+    d' = d ∨ inCoerceTable env c d = true := by
+  cases c <;> cases d <;>
+    first
+    | exact Or.inr rfl
+    | (rw [coerce_instance env _ _ rfl] at h; cases h; exact Or.inl rfl)
+    | (simp only [coerce, badTypeP, failAs, badType, Py.isInstance] at h; cases h; done)
+    | (simp only [coerce, badTypeP, failAs] at h
+       split at h
+       · exact Or.inr (by simp_all [inCoerceTable])
+       · cases h)
+
+/-- a boolean is converted to no number, and no number other than an integer to a boolean -/
+example (env : CoerceEnv) : (coerce env .float (.bool true)).isOk = false ∧ (coerce env .bool (.float (.fin 1))).isOk = false ∧
+    coerce env .int (.bool true) = .ok (.bool true) := ⟨rfl, rfl, rfl⟩
+
 theorem run_coerced_ok {env c m d d'} (h : coerce env c d = .ok d') :
     run (.coerced env c m) d = run m d' := by
   rw [run, h]; rfl
